@@ -2,7 +2,7 @@
     distinctness of random UUIDs are properties of the runtime: race detector and ID multiset in the harness -- partial).
     Threads are programs over atomic storage operations (the storage contract), interleaved under an arbitrary schedule. *)
 From Saml Require Import Base.Bytes Idp.FactTypes Gen.Facts Idp.Sso Idp.Callback Idp.AttrQuery Idp.Logout Conc.Interleave Conc.Handlers
-  Proofs.SsoProofs Proofs.SsoAccept Proofs.SsoLocal Proofs.AttrLocal Conc.SsoProg.
+  Proofs.SsoProofs Proofs.SsoAccept Proofs.SsoLocal Proofs.AttrLocal Conc.SsoProg Core.NewID.
 From Coq Require Import List. Import ListNotations.
 
 (** every schedule, any number of threads that only read: a finished thread's result is its result alone on the initial storage *)
@@ -88,6 +88,14 @@ Proof.
   exact (concurrent_sso_isolated decode verify_redirect verify_post instant_of now want_signed sso_locs entity_id fresh Hinj sso_steps current_chain_wf8 forms s0 sched).
 Qed.
 
+(** message and assertion identifiers: NewID() is "_" followed by the canonical text of a UUID (read off the source), and
+    every such string is a legal xs:ID of 37 characters (that two of them differ is a property of the random source: the
+    harness collects every identifier of every run and checks they are pairwise distinct) *)
+Theorem C15_id_legal : forall u, uuid_text u = true -> is_ncname (new_id u) = true /\ length (new_id u) = 37.
+Proof. exact new_id_legal. Qed.
+Theorem C15_id_source : newid_src = [("return", "fmt.Sprintf(""_%s"", uuid.New())")]%string.
+Proof. exact new_id_from_source. Qed.
+
 Print Assumptions C15_isolation.
 Print Assumptions C15_non_interference.
 Print Assumptions C15_ids_distinct.
@@ -99,3 +107,5 @@ Print Assumptions C15_sso_local.
 Print Assumptions C15_attrquery_local.
 Print Assumptions C15_sso_program.
 Print Assumptions C15_concurrent_sso.
+Print Assumptions C15_id_legal.
+Print Assumptions C15_id_source.
